@@ -722,11 +722,11 @@ theorem updateW_has (pr : PrInfo) : ∀ (ds : List Dest) (l : Loc) (prev : Commi
     | none => exact h
     | some t =>
       simp only
-      cases hm : l.merge (.w d pr.src) [t, prev] with
+      cases hm : l.mergeN pr.noOct (.w d pr.src) t prev with
       | none => exact h
       | some l' =>
         simp only
-        obtain ⟨h1, h2⟩ := Loc.merge_refs hm
+        obtain ⟨h1, h2⟩ := Loc.mergeN_refs hm
         have hx : l'.refs.has x = true := by
           by_cases e : x = .w d pr.src
           · rw [e]; exact h1
@@ -746,12 +746,12 @@ theorem updateW_all (pr : PrInfo) : ∀ (ds : List Dest) (l : Loc) (prev : Commi
     | some t =>
       rw [ht] at hok
       simp only at hok ⊢
-      cases hm : l.merge (.w d pr.src) [t, prev] with
+      cases hm : l.mergeN pr.noOct (.w d pr.src) t prev with
       | none => rw [hm] at hok; cases hok
       | some l' =>
         rw [hm] at hok
         simp only at hok ⊢
-        obtain ⟨h1, _⟩ := Loc.merge_refs hm
+        obtain ⟨h1, _⟩ := Loc.mergeN_refs hm
         cases hc : l'.refs.get (.w d pr.src) with
         | none => rw [hc] at hok; cases hok
         | some c =>
